@@ -251,7 +251,8 @@ func genStress(r *rand.Rand, i int, thorough bool) (hx.T, []string) {
 	}
 	// mode, then the overflow amounts [local, global, post, timer, session messages, requests]
 	// ... and the rounds of boundary work (timers already due, work produced from inside handlers)
-	cfg = append(cfg, 0, 0, 0, 0, 0, 0, 0, pick(1, 12))
+	// ... and the number of further actors spawned from the same props
+	cfg = append(cfg, 0, 0, 0, 0, 0, 0, 0, pick(1, 12), 0)
 	tags = append(tags, "edge")
 	over := func(lo, hi int) int64 { return 999 + pick(lo, hi) } // queues hold 999
 	switch i % 8 {
@@ -272,9 +273,17 @@ func genStress(r *rand.Rand, i int, thorough bool) (hx.T, []string) {
 	case 3:
 		cfg[14] = 1
 		tags = append(tags, "restart")
-	case 7:
-		cfg[14] = 2
-		tags = append(tags, "spawn-twice")
+	case 4, 6, 7:
+		// 2, 9, 10, 11, 12, 30 actors from ONE props share the dispatcher (queue of 9 batches) and the
+		// run service; while the loop is held every actor gets a request (and some extra ones first)
+		sib := []int64{10, 1, 29, 9, 11, 8}[(i/8*3+map[int]int{4: 0, 6: 1, 7: 2}[i%8])%6]
+		cfg[14], cfg[22] = 2, sib
+		cfg[20] = sib + 1 + pick(0, 60)
+		tags = append(tags, "many-actors", fmt.Sprintf("actors-%d", sib+1))
+		if i%8 == 6 { // together with the other overflows
+			cfg[15], cfg[17], cfg[18] = over(1, 100), over(1, 100), over(1, 50)
+			tags = append(tags, "overflow")
+		}
 	}
 	if i%16 == 11 { // restarted service, then an overflow
 		cfg[15], cfg[17] = over(1, 100), over(1, 100)
